@@ -373,7 +373,11 @@ def judge(case, rec, out):
             verdict, why = wire.classify_handshake(stream)
             if verdict == 'well':
                 i = stream.find(b'\n', stream.find(b'SSH-')) + 1
-                got = wire.parse_frame(stream[i:])
+                rest = stream[i:]
+                got = wire.parse_frame(rest)
+                while got[1][:1] in (bytes([wire.MSG_IGNORE]), bytes([wire.MSG_DEBUG])):     # RFC 4253 section 11: skipped by the judge, and to be skipped by the tool
+                    rest = rest[got[0]:]
+                    got = wire.parse_frame(rest)
                 k = wire.parse_kexinit(got[1])
                 exp = {'kex': k['kex'], 'key': k['key'], 'enc': k['enc_s2c'], 'mac': k['mac_s2c']}
                 exp = {c: [x.decode('utf-8', 'replace') for x in v] for c, v in exp.items()}
